@@ -213,6 +213,22 @@ def worker(args):
                 target_t, target_p = s, sp
                 mk_init = lambda: py.new_list([mk_a(), mk_vals()])
                 base_size = 4
+            elif variant == 'flexunion':
+                # union u { short tag; short arr[]; } initialised with {'arr': [...]}: unions carry a flexible array too
+                i16 = int_type(ex, 2)
+                p16 = pystubs.new_ctype(ex, L, 8, F['CT_POINTER'], itemdescr=i16)
+                arr = pystubs.new_ctype(ex, L, mask(64), F['CT_ARRAY'], itemdescr=i16, stuff=p16, length=mask(64))
+                f1 = pystubs.new_cfield(ex, L, i16, 0, mask(16), mask(16))
+                f2 = pystubs.new_cfield(ex, L, arr, 0, mask(16) - 1, mask(16), flags=F['BF_IGNORE_IN_CTOR'])
+                ex.mem.store(f1 + L.cf['cf_next'], f2, 8)
+                names = {'tag': py.new_unicode([ord(c) for c in 'tag'], 1), 'arr': py.new_unicode([ord(c) for c in 'arr'], 1)}
+                d_ = py.new_opaque('dict', 'PyDict_Type', items=[[names['tag'], f1], [names['arr'], f2]])
+                u = pystubs.new_ctype(ex, L, 2, F['CT_UNION'], length=2, stuff=d_, extra=f1)
+                ex.mem.store(u + L.ct['ct_flags_mut'], F['CT_WITH_VAR_ARRAY'], 4)
+                up = pystubs.new_ctype(ex, L, 8, F['CT_POINTER'] | F['CT_IS_PTR_TO_OWNED'], itemdescr=u)
+                target_t, target_p = u, up
+                mk_init = lambda: py.new_opaque('dict', 'PyDict_Type', items=[[py.new_unicode([ord(c) for c in 'arr'], 1), mk_vals()]])
+                base_size = 0
             else:
                 # struct outer { int n; struct s inner; } with inner given as a struct cdata
                 i32 = int_type(ex, 4)
@@ -239,6 +255,9 @@ def worker(args):
             # (2) ffi.new(T) sized for the same array, then p[0] = init
             if variant == 'flex':
                 r2 = simp(ex.call('direct_newp', [target_p, py.new_list([py.new_int(V_const(0)), py.new_int(V_const(k))]), alloc]))
+            elif variant == 'flexunion':
+                r2 = simp(ex.call('direct_newp', [target_p, py.new_opaque('dict', 'PyDict_Type', items=[
+                    [py.new_unicode([ord(c) for c in 'arr'], 1), py.new_int(V_const(k))]]), alloc]))
             else:
                 r2 = simp(ex.call('direct_newp', [target_p, none, alloc]))
             ok2 = is_c(r2) and r2 != 0 and py.exc is None
@@ -256,16 +275,23 @@ def worker(args):
             d1 = simp(ex.mem.load(r1 + 24, 8))
             reg1 = ex.mem.region_of(d1)
             size1 = reg1.base + reg1.size - d1
-            need = base_size + (2 * k if variant == 'flex' else 0)
+            need = max(base_size + (2 * k if variant in ('flex', 'flexunion') else 0), 2 if variant == 'flexunion' else 0)
             hutil.discharge(chk, ex, label + ':allocation-covers-the-initializer', size1 >= need, inputs)
             structobj = simp(ex.mem.load(r1 + 40, 8))       # CDataObject_own_structptr.structobj
-            if variant == 'flex':
+            if variant in ('flex', 'flexunion'):
                 hutil.discharge(chk, ex, label + ':recorded-size==allocated-size',
                                 simp(ex.mem.load(structobj + 40, 8)) == size1, inputs)
             same = [ex.mem.byte_expr(d1 + j) for j in range(need)]
             other = [ex.mem.byte_expr(d2 + j) for j in range(need)]
             hutil.discharge(chk, ex, label + ':same-bytes-as-new+assign',
                             z3.And(*[bv(x, 8) == bv(y, 8) for x, y in zip(same, other)]), inputs)
+            if variant == 'flexunion':
+                want = []
+                for v in vals:
+                    want += [z3.Extract(7, 0, v), z3.Extract(15, 8, v)]
+                want += [z3.BitVecVal(0, 8)] * (need - len(want))
+                hutil.discharge(chk, ex, label + ':bytes==items-rest-zero',
+                                z3.And(*[bv(x, 8) == w for x, w in zip(same, want)]), inputs)
             if variant == 'flex':
                 want = [z3.Extract(8 * b + 7, 8 * b, A) for b in range(4)]
                 for v in vals:
@@ -376,6 +402,7 @@ def run(chk):
     for k in range(0, 3 if quick else 5):
         cases.append(P + (('new-array', 4, k),))
         cases.append(P + (('struct', 'flex', k),))
+        cases.append(P + (('struct', 'flexunion', k),))
     cases.append(P + (('struct', 'nested-cdata', 0),))
     cases.append(P + (('aggregate', 'dict', 'declared'),))
     cases.append(P + (('aggregate', 'dict', 'reversed'),))
@@ -385,8 +412,8 @@ def run(chk):
         cases.append(P + (('aggregate', 'union', k),))
     chk.bounds = {'sizing': 'any offset, length, previous size (64-bit); item sizes {1,2,4,8,12}',
                   'ffi.new("T[]", n)': 'any Python int n; allocation performed for n*itemsize <= 1 MiB',
-                  'initializers': 'lists of 0..%d items; struct {int; short[]} and struct {int; struct-with-flexible-array} '
-                  'given as cdata' % (2 if quick else 4)}
+                  'initializers': 'lists of 0..%d items; struct {int; short[]}, union {short; short[]} (dict initializer) and '
+                  'struct {int; struct-with-flexible-array} given as cdata' % (2 if quick else 4)}
     chk.bounds['aggregates'] = 'struct {int a; short b; int c}: dict initializers with every subset of the fields in two orders (+ an unknown key), sequences of 0..3 items; union {int a; short b}: sequences of 0..2 items; every value'
     chk.outside = ['deeper nesting of initializers', 'custom allocators (ffi.new_allocator)', 'allocation failure (MemoryError)']
     chk.assume('calloc returns zeroed memory, malloc arbitrary memory (libc); CPython contracts of vf/pystubs.py')
